@@ -58,7 +58,8 @@ func xmssSame(c *drv.Ctx, i int64, how string, a, b *xmss.XMSS, signIdx []uint32
 		fail("exported-secrets")
 	}
 	if !bytes.Equal(a.VerifSnapshot(), b.VerifSnapshot()) {
-		fail("internal-state")
+		// full-state equality is C08's property; here it is a diagnostic (C09 speaks about keys, addresses, signatures)
+		c.Count("diagnostic:internal_state_differs", 1)
 	}
 	for _, idx := range signIdx {
 		ca, cb := a.VerifClone(), b.VerifClone()
